@@ -168,7 +168,7 @@ impl Scenario for EciesNet {
                     }
                     1 => {
                         let key = *rng.pick(&["right", "right", "right", "wrong_recipient", "wrong_sender"]);
-                        events.push(json!({"op": "deliver", "pkt": p, "recipient": *rng.pick(&["bsv", "bsv", "ref"]), "keying": *rng.pick(&["known", "from_ct"]), "key": key, "other": gen_key(rng), "via_decrypt_message": rng.chance(1, 4), "reuse_object": rng.chance(1, 2)}));
+                        events.push(json!({"op": "deliver", "pkt": p, "recipient": *rng.pick(&["bsv", "bsv", "ref"]), "keying": *rng.pick(&["known", "from_ct"]), "key": key, "other": gen_key(rng), "via_decrypt_message": rng.chance(1, 4), "reuse_object": rng.chance(1, 2), "sender_key_uncompressed": rng.chance(1, 4)}));
                     }
                     _ => events.push(json!({"op": "deliver", "pkt": p, "recipient": "bsv", "keying": "known", "key": "right", "other": gen_key(rng), "via_decrypt_message": false, "reuse_object": rng.chance(1, 2)})),
                 }
@@ -464,7 +464,14 @@ impl Scenario for EciesNet {
                         d
                     };
                     let rsecret = if key == "wrong_recipient" { other.clone() } else { pk.recipient_secret.clone() };
-                    let sender_pub_known = if key == "wrong_sender" { rf::pubkey_of(&other, true).unwrap() } else { pk.sender_pub.clone() };
+                    let mut sender_pub_known = if key == "wrong_sender" { rf::pubkey_of(&other, true).unwrap() } else { pk.sender_pub.clone() };
+                    if jbool(ev, "sender_key_uncompressed") && keying == "known" {
+                        // the same point in its 65-byte encoding: an out-of-band key is a point, not a byte string
+                        if let Some(p) = rf::point_from_sec1(&sender_pub_known) {
+                            sender_pub_known = rf::point_sec1(&p, false);
+                            ctx.probe("sender_key_presented_uncompressed");
+                        }
+                    }
                     if key == "wrong_recipient" {
                         ctx.fault("misdeliver:recipient");
                         ctx.probe("deliver_wrong_recipient");
